@@ -25,7 +25,7 @@ Import ListNotations.
 Open Scope Z_scope.
 
 Definition ident := N.
-Inductive finding := FNegCount | FNegDuration | FNearInteger | FParallel.
+Inductive finding := FNegCount | FNegDuration | FNearInteger | FParallel | FDropped.
 Inductive errkind := EMissing | ENotInt | EZeroStep | EMismatch | ETable | EConstraint | EOther | EFinding (k : finding).
 Inductive res (A : Type) : Type := Ok (a : A) | Inexact | Err (k : errkind).
 Arguments Ok {A} a. Arguments Inexact {A}. Arguments Err {A} k.
@@ -52,17 +52,18 @@ Definition time_of (v : value) : Q :=
 Definition raw_of (v : value) : Q :=
   match v with VInt z => inject_Z z | VTime q => q | VFloat x _ => x | VBad q => q end.
 
-Record cfg := { cv : value -> Q; s_negcount : bool; s_negdur : bool; s_nearint : bool; s_parallel : bool }.
-Definition real : cfg := {| cv := raw_of; s_negcount := false; s_negdur := false; s_nearint := false; s_parallel := false |}.
-Definition lax : cfg := {| cv := time_of; s_negcount := false; s_negdur := false; s_nearint := false; s_parallel := false |}.
-Definition ideal : cfg := {| cv := time_of; s_negcount := true; s_negdur := true; s_nearint := true; s_parallel := true |}.
+Record cfg := { cv : value -> Q; s_negcount : bool; s_negdur : bool; s_nearint : bool; s_parallel : bool; s_dropped : bool }.
+Definition real : cfg := {| cv := raw_of; s_negcount := false; s_negdur := false; s_nearint := false; s_parallel := false; s_dropped := false |}.
+Definition lax : cfg := {| cv := time_of; s_negcount := false; s_negdur := false; s_nearint := false; s_parallel := false; s_dropped := false |}.
+Definition ideal : cfg := {| cv := time_of; s_negcount := true; s_negdur := true; s_nearint := true; s_parallel := true; s_dropped := true |}.
 (* exactly one finding class made explicit (classes are defined on time values: decimal reading) *)
 Definition only (k : finding) : cfg :=
   {| cv := time_of;
      s_negcount := match k with FNegCount => true | _ => false end;
      s_negdur := match k with FNegDuration => true | _ => false end;
      s_nearint := match k with FNearInteger => true | _ => false end;
-     s_parallel := match k with FParallel => true | _ => false end |}.
+     s_parallel := match k with FParallel => true | _ => false end;
+     s_dropped := match k with FDropped => true | _ => false end |}.
 
 Definition Qleb (a b : Q) : bool := Qle_bool a b.
 Definition Qltb (a b : Q) : bool := negb (Qle_bool b a).
@@ -154,12 +155,17 @@ Fixpoint eval (e : env) (x : expr) : res value :=
 (* templates, as far as durations are concerned *)
 Inductive akind := KConst | KFunc.
 Inductive pt :=
-| PAtom (k : akind) (rank : Z) (d : expr)         (* ConstantPT / FunctionPT; rank = sort position of its channels *)
-| PTable (rank : Z) (chans : list (list expr))    (* TablePT (entry times per channel) / PointPT (one list) *)
+| PAtom (k : akind) (chs : list (option Z)) (d : expr)
+    (* ConstantPT / FunctionPT; chs = its channels as the enclosing channel mappings leave them: Some c = played as
+       channel c (channel ids are numbered in the sort order of the channel names), None = dropped *)
+| PTable (chans : list (option Z * list expr))
+    (* TablePT: entry times per channel / PointPT: the same list of times for every channel *)
 | PSeq (subs : list pt)
 | PRep (count : expr) (body : pt)
 | PFor (idx : ident) (start stop step : expr) (body : pt)
-| PMap (m : list (ident * expr)) (body : pt)
+| PMap (m : list (ident * expr)) (cm : list (Z * option Z)) (body : pt)
+    (* MappingPT: parameter mapping (all right hand sides are read in the OUTER scope: simultaneous substitution) and
+       channel mapping (channel -> Some new name | None = dropped; channels not listed keep their name) *)
 | PMulti (declared : option expr) (subs : list pt)  (* AtomicMultiChannelPT *)
 | PArith (lhs rhs : pt)                             (* ArithmeticAtomicPT *)
 | PWrap (body : pt)                                 (* ArithmeticPT with a scalar operand *)
@@ -187,8 +193,8 @@ Definition last_expr (l : list expr) : expr := last l (ELit (VInt 0)).
 Fixpoint sym (p : pt) (e : env) : res value :=
   match p with
   | PAtom _ _ d => eval e d
-  | PTable _ chans =>                                   (* sympy.Max over the last entry time of every channel *)
-      do ls <- rall (map (fun ts => eval e (last_expr ts)) chans);
+  | PTable chans =>                  (* sympy.Max over the last entry time of EVERY channel (dropped or not) *)
+      do ls <- rall (map (fun ts => eval e (last_expr ts)) (map snd chans));
       match ls with [] => Err EOther | a :: t => vmax_list a t end
   | PSeq subs => do ds <- rall (map (fun c => sym c e) subs); vsum ds
   | PRep c b => do n <- eval e c; do d <- sym b e; vmul n d
@@ -203,7 +209,7 @@ Fixpoint sym (p : pt) (e : env) : res value :=
                             (seq 0 (Z.to_nat (Z.max n 1))));
       do total <- vsum terms;
       if n <=? 0 then Ok (VInt 0) else Ok total
-  | PMap m b => do e' <- map_env e m; sym b e'
+  | PMap m _ b => do e' <- map_env e m; sym b e'    (* the channel mapping plays no role in `duration` *)
   | PMulti decl subs =>
       match decl with
       | Some d => eval e d
@@ -221,6 +227,39 @@ Definition decimalize_value (v : value) : value := match v with VFloat _ d => VT
 Definition decimalize (e : env) : env := map (fun xv => (fst xv, decimalize_value (snd xv))) e.
 
 (* ------------------------------------------------------------------------------------------------------------ *)
+(* channel mappings.  They do not depend on parameters, and every template hands the mapping it received on to its
+   parts unchanged except MappingPT, which composes (get_updated_channel_mapping:
+   {inner: None if outer is None else channel_mapping[outer]}).  `resolve f p` performs exactly this threading once and
+   for all: it pushes the mapping `f` received from outside down to the atoms and records there what becomes of each
+   of their channels.  wf_of / cp below work on resolved templates (they do not look at `cm` any more);
+   `create_program` is the entry point and resolves with the identity mapping. *)
+Fixpoint lookupz {A} (m : list (Z * A)) (x : Z) : option A :=
+  match m with [] => None | (y, v) :: t => if Z.eqb x y then Some v else lookupz t x end.
+Definition idf (c : Z) : option Z := Some c.
+Definition compose_cm (f : Z -> option Z) (cm : list (Z * option Z)) (c : Z) : option Z :=
+  match lookupz cm c with
+  | Some (Some o) => f o
+  | Some None => None
+  | None => f c             (* "fill up implicit mappings (unchanged channels)" *)
+  end.
+Definition map_ch (f : Z -> option Z) (oc : option Z) : option Z := match oc with Some c => f c | None => None end.
+Fixpoint resolve (f : Z -> option Z) (p : pt) : pt :=
+  match p with
+  | PAtom k chs d => PAtom k (map (map_ch f) chs) d
+  | PTable chans => PTable (map (fun cts => (map_ch f (fst cts), snd cts)) chans)
+  | PSeq subs => PSeq (map (resolve f) subs)
+  | PRep c b => PRep c (resolve f b)
+  | PFor i a b s body => PFor i a b s (resolve f body)
+  | PMap m cm b => PMap m [] (resolve (compose_cm f cm) b)
+  | PMulti d subs => PMulti d (map (resolve f) subs)
+  | PArith l r => PArith (resolve f l) (resolve f r)
+  | PWrap b => PWrap (resolve f b)
+  | PRev b => PRev (resolve f b)
+  | PConstr cs b => PConstr cs (resolve f b)
+  | PSingle b => PSingle (resolve f b)
+  end.
+
+(* ------------------------------------------------------------------------------------------------------------ *)
 (* Python range(a, b, s), s <> 0, by its defining loop; fuel |b - a| always suffices *)
 Fixpoint range_fuel (fuel : nat) (x b s : Z) : list Z :=
   match fuel with
@@ -230,11 +269,11 @@ Fixpoint range_fuel (fuel : nat) (x b s : Z) : list Z :=
 Definition zrange (a b s : Z) : list Z := range_fuel (Z.to_nat (Z.abs (b - a))) a b s.
 
 (* ------------------------------------------------------------------------------------------------------------ *)
-(* atomic templates: build_waveform.  A waveform is the list of its channel components (sort rank, duration), sorted;
-   its duration is the duration of the first component (MultiChannelWaveform.duration = _sub_waveforms[0].duration). *)
+(* atomic templates: build_waveform.  A waveform is the list of its single-channel components (channel, duration),
+   sorted by channel; its duration is the duration of the first component (MultiChannelWaveform.duration =
+   _sub_waveforms[0].duration); an arithmetic / transforming waveform is one component under its lowest channel. *)
 Definition comps := list (Z * Q).
 Definition cdur (c : comps) : Q := match c with (_, d) :: _ => d | [] => 0 end.
-Definition crank (c : comps) : Z := match c with (r, _) :: _ => r | [] => 0 end.
 
 Fixpoint insert_comp (x : Z * Q) (l : comps) : comps :=
   match l with
@@ -242,6 +281,16 @@ Fixpoint insert_comp (x : Z * Q) (l : comps) : comps :=
   | y :: t => if fst y <=? fst x then y :: insert_comp x t else x :: l      (* stable *)
   end.
 Definition sort_comps (l : comps) : comps := fold_right insert_comp [] l.
+(* one component of duration d per played channel *)
+Definition mk_comps (kc : list Z) (d : Q) : comps := sort_comps (map (fun c => (c, d)) kc).
+Definition wf_mk (kc : list Z) (d : Q) : option comps := match kc with [] => None | _ => Some (mk_comps kc d) end.
+Definition is_nil {A} (l : list A) : bool := match l with [] => true | _ => false end.
+(* a waveform that is not a parallel composition of single-channel waveforms (TransformingWaveform, ArithmeticWaveform):
+   one duration for all of its channels.  As the parts of a parallel composition have disjoint channels, sorting the
+   single-channel entries puts an entry of the part with the lowest channel first, exactly as sorting the parts by
+   their channel tuples does *)
+Definition recomp (w : comps) (q : Q) : comps := map (fun x => (fst x, q)) w.
+Definition union_z (a b : list Z) : list Z := a ++ filter (fun x => negb (existsb (Z.eqb x) a)) b.
 
 (* MultiChannelWaveform(flattened): sort by channels, all durations isclose to the first *)
 Definition parallel (l : comps) : res comps :=
@@ -259,9 +308,14 @@ Definition lastv (l : list value) : value := last l (VInt 0).
 Fixpoint pymax_list (f : value -> Q) (a : value) (l : list value) : value :=
   match l with [] => a | b :: t => pymax_list f (pymax f a b) t end.
 
-(* TablePulseTemplate.get_entries_instantiated + TableWaveform validation; every comparison on the reading `f` *)
-Definition table_wf (f : value -> Q) (rank : Z) (e : env) (chans : list (list expr)) : res (option comps) :=
-  do vals <- rall (map (fun ts => rall (map (eval e) ts)) chans);
+Fixpoint somes {A} (l : list (option A)) : list A :=
+  match l with [] => [] | Some a :: t => a :: somes t | None :: t => somes t end.
+
+(* TablePulseTemplate.get_entries_instantiated (ALL channels are instantiated; the duration every channel is padded
+   to is the maximum over all of them, dropped or not) + build_waveform (only the played channels become
+   TableWaveforms and are validated); every comparison on the reading `f` *)
+Definition table_wf (f : value -> Q) (e : env) (chans : list (option Z * list expr)) : res (option comps) :=
+  do vals <- rall (map (fun ts => rall (map (eval e) ts)) (map snd chans));
   (* Add (0, v) entry if wf starts at finite time *)
   let ins := map (fun ts => match ts with v :: _ => if Qltb 0 (f v) then VInt 0 :: ts else ts | [] => ts end) vals in
   match map lastv ins with
@@ -271,12 +325,17 @@ Definition table_wf (f : value -> Q) (rank : Z) (e : env) (chans : list (list ex
       if Qeqb (f dur) 0 then Ok None else
       let padded := map (fun ts => if Qltb (f (lastv ts)) (f dur) then ts ++ [dur] else ts) ins in
       (* TableWaveform._validate_input: first time 0, times not decreasing *)
-      if forallb (fun ts => match ts with v :: _ => Qeqb (f v) 0 && sortedq (map f ts) | [] => false end) padded
-      then Ok (Some [(rank, time_of dur)]) else Err ETable
+      (* `if channel_mapping[channel] is not None` *)
+      let kept := somes (map (fun ct => match fst ct with Some c => Some (c, snd ct) | None => None end)
+                             (combine (map fst chans) padded)) in
+      match kept with
+      | [] => Ok None
+      | _ =>
+      (* TableWaveform._validate_input: first time 0, times not decreasing *)
+      if forallb (fun ts => match ts with v :: _ => Qeqb (f v) 0 && sortedq (map f ts) | [] => false end) (map snd kept)
+      then Ok (Some (mk_comps (map fst kept) (time_of dur))) else Err ETable
+      end
   end.
-
-Fixpoint somes {A} (l : list (option A)) : list A :=
-  match l with [] => [] | Some a :: t => a :: somes t | None :: t => somes t end.
 Definition is_none {A} (o : option A) : bool := match o with None => true | Some _ => false end.
 
 (* parameter constraints `lhs <= rhs`: the lambdified relation compares the raw values *)
@@ -293,15 +352,21 @@ Definition par_strict (ws : list (option comps)) : bool :=
 
 Fixpoint wf_of (c : cfg) (p : pt) (e : env) : res (option comps) :=
   match p with
-  | PAtom k r d =>
+  | PAtom k chs d =>
+      let kc := somes chs in
+      (* ghost switch: no channel of this atom is played *)
+      if s_dropped c && is_nil kc then Err (EFinding FDropped) else
+      (* FunctionPT: `if channel is None: return None` before anything is evaluated *)
+      if (match k with KFunc => true | KConst => false end) && is_nil kc then Ok None else
       do v <- eval e d;
       if s_negdur c && Qltb (cv c v) 0 then Err (EFinding FNegDuration) else
       match k with
-      | KConst => if Qltb 0 (cv c v) then Ok (Some [(r, time_of v)]) else Ok None     (* `if duration > 0` *)
-      | KFunc => Ok (Some [(r, time_of v)])
+      | KConst => if Qltb 0 (cv c v) then Ok (wf_mk kc (time_of v)) else Ok None     (* `if duration > 0`, `if constant_values` *)
+      | KFunc => Ok (wf_mk kc (time_of v))
       end
-  | PTable r chans => table_wf (cv c) r e chans
-  | PMap m b => do e' <- map_env e m; wf_of c b e'
+  | PTable chans =>
+      if s_dropped c && is_nil (somes (map fst chans)) then Err (EFinding FDropped) else table_wf (cv c) e chans
+  | PMap m _ b => do e' <- map_env e m; wf_of c b e'
   | PMulti decl subs =>
       do ws <- rall (map (fun s => wf_of c s e) subs);
       do res <-
@@ -329,13 +394,13 @@ Fixpoint wf_of (c : cfg) (p : pt) (e : env) : res (option comps) :=
       do wl <- wf_of c l e; do wr <- wf_of c r e;
       match wr, wl with
       | None, _ => Ok wl
-      | Some cr, None => Ok (Some [(crank cr, cdur cr)])
+      | Some cr, None => Ok (Some (recomp cr (cdur cr)))          (* rhs_only_map: the channels of rhs *)
       | Some cr, Some cl => if isclose (cdur cl) (cdur cr)
                             then if s_parallel c && negb (Qeqb (cdur cl) (cdur cr)) then Err (EFinding FParallel)
-                                 else Ok (Some [(Z.min (crank cl) (crank cr), cdur cl)])
+                                 else Ok (Some (mk_comps (union_z (map fst cl) (map fst cr)) (cdur cl)))
                             else Err EMismatch
       end
-  | PWrap b => do w <- wf_of c b e; Ok (match w with Some x => Some [(crank x, cdur x)] | None => None end)
+  | PWrap b => do w <- wf_of c b e; Ok (match w with Some x => Some (recomp x (cdur x)) | None => None end)
   | PConstr cs b => do _ <- check_constr c e cs; wf_of c b e
   | PSingle b => wf_of c b e                 (* to_single_waveform has no effect inside build_waveform *)
   | PSeq _ | PRep _ _ | PFor _ _ _ _ _ | PRev _ => Err EOther      (* not atomic *)
@@ -343,7 +408,8 @@ Fixpoint wf_of (c : cfg) (p : pt) (e : env) : res (option comps) :=
 
 (* ------------------------------------------------------------------------------------------------------------ *)
 (* programs *)
-Inductive loop := Leaf (rep : Z) (d : Q) | Node (rep : Z) (kids : list loop).
+(* a leaf carries the channels its waveform defines *)
+Inductive loop := Leaf (rep : Z) (chs : list Z) (d : Q) | Node (rep : Z) (kids : list loop).
 
 Open Scope Q_scope.
 Fixpoint qsum (l : list Q) : Q := match l with [] => 0 | a :: t => a + qsum t end.
@@ -351,7 +417,7 @@ Fixpoint qsum (l : list Q) : Q := match l with [] => 0 | a :: t => a + qsum t en
 (* Loop.duration = body_duration * repetition_count *)
 Fixpoint loop_duration (l : loop) : Q :=
   match l with
-  | Leaf r d => d * inject_Z r
+  | Leaf r _ d => d * inject_Z r
   | Node r kids => qsum (map loop_duration kids) * inject_Z r
   end.
 Definition total (kids : list loop) : Q := qsum (map loop_duration kids).
@@ -359,11 +425,11 @@ Definition total (kids : list loop) : Q := qsum (map loop_duration kids).
 (* sum over all played pieces: leaf waveform duration x multiplicity *)
 Fixpoint sum_pieces (mult : Z) (l : loop) : Q :=
   match l with
-  | Leaf r d => d * inject_Z (mult * r)
+  | Leaf r _ d => d * inject_Z (mult * r)
   | Node r kids => qsum (map (sum_pieces (mult * r)) kids)
   end.
 
-(* to_waveform(program).duration; None = a childless non-leaf (never produced by create_program) *)
+(* the duration of to_waveform(program) if it can be built; None = a childless non-leaf (never produced by create_program) *)
 Fixpoint oqsum (l : list (option Q)) : option Q :=
   match l with
   | [] => Some 0
@@ -372,7 +438,7 @@ Fixpoint oqsum (l : list (option Q)) : option Q :=
   end.
 Fixpoint wf_duration (l : loop) : option Q :=
   match l with
-  | Leaf r d => Some (if (r =? 1)%Z then d else d * inject_Z r)
+  | Leaf r _ d => Some (if (r =? 1)%Z then d else d * inject_Z r)
   | Node r kids =>
       match kids with
       | [] => None
@@ -383,6 +449,16 @@ Fixpoint wf_duration (l : loop) : option Q :=
       end
   end.
 Close Scope Q_scope.
+
+(* to_waveform: SequenceWaveform raises ValueError unless all sequenced waveforms define the same channels; a sequence
+   is built at every node with more than one child, so the waveform exists iff all leaves define the same channels *)
+Fixpoint leaves (l : loop) : list (list Z) :=
+  match l with Leaf _ cs _ => [cs] | Node _ kids => concat (map leaves kids) end.
+Fixpoint zs_eqb (a b : list Z) : bool :=
+  match a, b with [], [] => true | x :: a', y :: b' => Z.eqb x y && zs_eqb a' b' | _, _ => false end.
+Definition uniform (l : loop) : bool := match leaves l with [] => true | a :: t => forallb (zs_eqb a) t end.
+(* to_waveform(program).duration; None = to_waveform raises *)
+Definition to_wf (l : loop) : option Q := if uniform l then wf_duration l else None.
 
 Definition wrap_node (n : Z) (kids : list loop) : list loop :=
   match kids with [] => [] | _ => [Node n kids] end.
@@ -401,7 +477,7 @@ Fixpoint cp (c : cfg) (p : pt) (e : env) : res (list loop) :=
       do vs <- eval e s; do is <- int_of c vs;
       if is =? 0 then Err EZeroStep else
       do ks <- rall (map (fun v => cp c body ((i, VInt v) :: e)) (zrange ia ib is)); Ok (concat ks)
-  | PMap m b => do e' <- map_env e m; cp c b e'
+  | PMap m _ b => do e' <- map_env e m; cp c b e'
   | PWrap b => cp c b e
   | PRev b => do kids <- cp c b e; Ok (wrap_node 1 kids)
   | PConstr cs b => do _ <- check_constr c e cs; cp c b e
@@ -410,12 +486,16 @@ Fixpoint cp (c : cfg) (p : pt) (e : env) : res (list loop) :=
       do kids <- cp c b e;
       match kids with
       | [] => Ok []
-      | _ => match wf_duration (Node 1 kids) with Some q => Ok [Leaf 1 q] | None => Err EOther end
+      | _ => match to_wf (Node 1 kids) with
+             | Some q => Ok [Leaf 1 (hd [] (leaves (Node 1 kids))) q]
+             | None => Err EOther                  (* to_waveform raises inside create_program *)
+             end
       end
-  | PAtom _ _ _ | PTable _ _ | PMulti _ _ | PArith _ _ =>
-      do w <- wf_of c p e; Ok (match w with Some x => [Leaf 1 (cdur x)] | None => [] end)
+  | PAtom _ _ _ | PTable _ | PMulti _ _ | PArith _ _ =>
+      do w <- wf_of c p e; Ok (match w with Some x => [Leaf 1 (map fst x) (cdur x)] | None => [] end)
   end.
 
-(* create_program: Some root / None *)
+(* create_program: Some root / None.  The channel mappings are threaded to the atoms first (`resolve`); the
+   `channel_mapping` argument of create_program is an outermost PMap [] cm. *)
 Definition create_program (c : cfg) (p : pt) (e : env) : res (option loop) :=
-  do kids <- cp c p e; Ok (match kids with [] => None | _ => Some (Node 1 kids) end).
+  do kids <- cp c (resolve idf p) e; Ok (match kids with [] => None | _ => Some (Node 1 kids) end).
